@@ -25,7 +25,7 @@ ASSUME = ["integer Gregorian calendar arithmetic in refs/timeref.py is the refer
           "ray stand-in (rvmon/shimray.py) replaces the executor for the timed runs; everything else is repository code"]
 SHARDS = {"quick": 4, "thorough": 16}
 BUDGET_S = {"quick": 100, "thorough": 1200}
-DECIDING = ["conv_roundtrip", "conv_monotonic", "sec_roundtrip", "run_steps", "run_epochs"]
+DECIDING = ["conv_roundtrip", "conv_monotonic", "sec_roundtrip", "run_steps", "run_epochs", "entry_point"]
 
 
 MANIFEST = {
@@ -100,6 +100,68 @@ def check_target_jd(ctx, t: datetime, dur_s: int):
     ref = timeref.jd_float(t + timedelta(seconds=dur_s))
     ctx.check(abs(float(tgt) - ref) < 0.4 / 86400.0, "target-date", f"getTargetJulianDate({t.isoformat()}, {dur_s}s) is off by {(float(tgt) - ref) * 86400:.3f} s",
               {"kind": "target", "t": t.isoformat(), "dur": dur_s}, mon="target_jd")
+
+
+def check_entry_point(ctx, start: datetime, step: int, hours: float):
+    """The public entry point itself: ``resonaate.runResonaate(init_message, sim_time_hours)`` on a config written to files;
+    the run must take floor(hours*3600/step) steps (hours*3600 evaluated exactly: the value the user typed, as a decimal)."""
+    import json
+    import shutil
+    import sqlite3
+    import tempfile
+    from fractions import Fraction
+
+    from .. import scenario_kit as sk
+    from .. import shimray
+
+    sk.init()
+    import resonaate
+    from resonaate.data import clearDBPath
+
+    r, v = sk.circ_state(7000.0, 51.6, 30.0, 40.0)
+    exact = Fraction(str(hours)) * 3600
+    expected = int(exact // step)
+    cfg = sk.scenario_cfg(start, start + timedelta(seconds=(expected + 3) * step), step, [sk.engine_cfg(1, [sk.target_cfg(10001, r, v)], [sk.ground_sensor_cfg(20001, 35.0, -106.0)])], truth_only=True)
+    wit = {"kind": "entry", "start": start.isoformat(), "step": step, "hours": hours}
+    d = tempfile.mkdtemp(prefix="rvmon-c05-")
+    try:
+        eng = dict(cfg.pop("engines")[0])
+        json.dump(eng.pop("targets"), open(f"{d}/targets.json", "w"))
+        json.dump(eng.pop("sensors"), open(f"{d}/sensors.json", "w"))
+        eng["targets_file"], eng["sensors_file"] = "targets.json", "sensors.json"
+        json.dump(eng, open(f"{d}/engine.json", "w"))
+        cfg["engines_files"] = ["engine.json"]
+        json.dump(cfg, open(f"{d}/init.json", "w"))
+        shimray.reset(base_seed=0)
+        shimray.init()
+        sk._reset_library_state()  # noqa: SLF001
+        try:
+            clearDBPath()
+        except Exception:  # noqa: BLE001
+            pass
+        dbp = f"{d}/out.sqlite3"
+        raised = None
+        try:
+            resonaate.runResonaate(f"{d}/init.json", sim_time_hours=hours, internal_db_path=dbp)
+        except Exception as e:  # noqa: BLE001
+            raised = f"{type(e).__name__}: {e}"
+        if expected == 0:
+            ctx.check(raised is not None, "entry-point-short-run", f"runResonaate({hours} h, step {step}s) shorter than one step did not raise", wit, mon="entry_point")
+            return
+        con = sqlite3.connect(dbp)
+        rows = con.execute("select distinct e.timestampISO from truth_ephemerides t join epochs e on e.julian_date = t.julian_date order by e.julian_date").fetchall()
+        con.close()
+        got = [datetime.fromisoformat(x[0]) for x in rows]
+        want_last = start + timedelta(seconds=expected * step)
+        ctx.check(raised is None and bool(got) and got[-1] == want_last and len(got) == expected + 1, "entry-point-duration",
+                  f"runResonaate(sim_time_hours={hours}) from {start.isoformat()} with step {step}s recorded {len(got)} epochs ending {got[-1].isoformat() if got else None}; "
+                  f"expected {expected + 1} ending {want_last.isoformat()}" + (f" (raised {raised})" if raised else ""), wit, mon="entry_point")
+    finally:
+        try:
+            clearDBPath()
+        except Exception:  # noqa: BLE001
+            pass
+        shutil.rmtree(d, ignore_errors=True)
 
 
 def check_run(ctx, start: datetime, step: int, dur_s: int, out_step=None):
@@ -244,6 +306,13 @@ def run(ctx):
             legs = [rng.randrange(1, 8) * step + rng.choice([0, 0, rng.randrange(1, step)]) for _ in range(rng.randrange(2, 5))]
             check_legs(ctx, start, step, legs)
             ctx.count("multi_leg_runs")
+        if i % 6 == 0:
+            # the entry point with the hour values a user types: exact multiples of the step whose float product with 3600 falls an
+            # ulp short of an integer (2.05, 1.13, 4.1 ...), plain fractions, and non-multiples
+            hours = rng.choice([2.05, 1.13, 4.1, 4.35, 0.5, 1.15, 0.25, 2.0, 0.07, 1.01])
+            st = rng.choice([180, 60, 36, 300]) if hours < 3 else rng.choice([180, 900])
+            check_entry_point(ctx, start, st, hours)
+            ctx.count("entry_point_runs")
         ctx.case(("r", start.isoformat(), step, dur), nontrivial=(start.second != 0 or dur % step != 0),
                  sample={"start": start.isoformat(), "step": step, "duration_s": dur})
         ctx.count("timed_runs")
@@ -255,6 +324,8 @@ def replay(ctx, w):
     sk.init()
     if w.get("kind") == "legs":
         check_legs(ctx, datetime.fromisoformat(w["start"]), w["step"], w["legs"])
+    elif w.get("kind") == "entry":
+        check_entry_point(ctx, datetime.fromisoformat(w["start"]), w["step"], w["hours"])
     elif w.get("kind") == "run":
         check_run(ctx, datetime.fromisoformat(w["start"]), w["step"], w["dur"], w.get("out_step"))
     elif w.get("kind") == "target":
